@@ -15,8 +15,8 @@ Open Scope string_scope.
 Open Scope list_scope.
 
 (* ---------- every definition of the output belongs to the group of a source definition ---------- *)
-Lemma compile_defs_cover : forall lg defs codata ul front back res,
-  compile_defs lg defs codata ul front back = Ok res ->
+Lemma compile_defs_cover_nc : forall lg defs codata ul front back res,
+  compile_defs lg false defs codata ul front back = Ok res ->
   forall x, In x res ->
     In x front \/ In x back \/
     exists d ul1 g ul2, In d defs /\
@@ -24,11 +24,12 @@ Lemma compile_defs_cover : forall lg defs codata ul front back res,
       In x g /\ incl g res.
 Proof.
   intros lg. induction defs as [|d r IH]; intros codata ul front back res H x Hx; simpl in H.
+  2: unfold compile_main_group in H; cbn [andb] in H.
   - injection H as H. subst res. apply in_app_or in Hx. destruct Hx as [Hx|Hx]; [left; exact Hx|].
     right. left. rewrite rev_append_rev, app_nil_r in Hx. apply in_rev in Hx. exact Hx.
   - destruct (String.eqb (fdname d) "main") eqn:E.
     + destruct (compile_main lg d codata ul) as [[g ul']|?] eqn:Em; simpl in H; [|discriminate].
-      destruct (compile_defs_groups _ _ _ _ _ _ _ H) as [_ [Hfr _]].
+      destruct (compile_defs_groups _ _ _ _ _ _ _ _ H) as [_ [Hfr _]].
       destruct (IH _ _ _ _ _ H x Hx) as [H1|[H1|[d' [ul1 [g' [ul2 [Hd' [Hc [Hin Hinc]]]]]]]]].
       * apply in_app_or in H1. destruct H1 as [H1|H1]; [|left; exact H1].
         right. right. exists d, ul, g, ul'. rewrite E. split; [left; reflexivity|]. split; [exact Em|]. split; [exact H1|].
@@ -36,7 +37,7 @@ Proof.
       * right. left. exact H1.
       * right. right. exists d', ul1, g', ul2. split; [right; exact Hd' | repeat split; assumption].
     + destruct (compile_def lg d codata ul) as [[g ul']|?] eqn:Em; simpl in H; [|discriminate].
-      destruct (compile_defs_groups _ _ _ _ _ _ _ H) as [_ [_ Hbk]].
+      destruct (compile_defs_groups _ _ _ _ _ _ _ _ H) as [_ [_ Hbk]].
       destruct (IH _ _ _ _ _ H x Hx) as [H1|[H1|[d' [ul1 [g' [ul2 [Hd' [Hc [Hin Hinc]]]]]]]]].
       * left. exact H1.
       * rewrite rev_append_rev in H1. apply in_app_or in H1. destruct H1 as [H1|H1]; [|right; left; exact H1].
@@ -54,17 +55,19 @@ Section Prog.
   Notation C := (ccodata_of p).
 
   Lemma guard_decls : decls_tyguard p = true.
-  Proof. unfold prog_tyguard in Hguard. apply andb_prop in Hguard. tauto. Qed.
+  Proof. unfold prog_tyguard in Hguard. apply andb_prop in Hguard. destruct Hguard as [H _]. apply andb_prop in H. tauto. Qed.
+  Lemma guard_ncm : calls_main_prog p = false.
+  Proof. unfold prog_tyguard in Hguard. apply andb_prop in Hguard. destruct Hguard as [H _]. apply andb_prop in H. destruct H as [_ H]. apply negb_true_iff in H. exact H. Qed.
   Lemma guard_def : forall d, In d (fcpdefs p) -> def_tyguard p D C d = true.
   Proof. intros d Hd. unfold prog_tyguard in Hguard. apply andb_prop in Hguard. destruct Hguard as [_ H]. rewrite forallb_forall in H. apply H. exact Hd. Qed.
   Lemma src_names_nodup : NoDup (map fdname (fcpdefs p)).
   Proof. pose proof guard_decls as H. unfold decls_tyguard in H. apply andb_prop in H. destruct H as [_ H]. apply nodup_str_nd. exact H. Qed.
 
   Lemma prog_shape : exists defs,
-    compile_defs false (fcpdefs p) C (map fdname (fcpdefs p)) [] [] = Ok defs /\ c = mkcp defs D C 0.
+    compile_defs false false (fcpdefs p) C (map fdname (fcpdefs p)) [] [] = Ok defs /\ c = mkcp defs D C 0.
   Proof.
-    unfold compile_prog, compile_prog_gen in Hcomp. fold D C in Hcomp.
-    destruct (compile_defs false (fcpdefs p) C _ [] []) as [defs|?] eqn:E; simpl in Hcomp; [|discriminate].
+    unfold compile_prog, compile_prog_gen in Hcomp. fold D C in Hcomp. rewrite guard_ncm in Hcomp.
+    destruct (compile_defs false false (fcpdefs p) C _ [] []) as [defs|?] eqn:E; simpl in Hcomp; [|discriminate].
     injection Hcomp as Hc. exists defs. auto.
   Qed.
 
@@ -77,7 +80,7 @@ Section Prog.
     incl g (cpdefs c).
   Proof.
     intros d Hd. destruct prog_shape as [defs [Hdefs Hc]].
-    destruct (compile_defs_groups _ _ _ _ _ _ _ Hdefs) as [Hgroups _].
+    destruct (compile_defs_groups _ _ _ _ _ _ _ _ Hdefs) as [Hgroups _].
     destruct (Hgroups d Hd) as [ul1 [g [ul2 [H1 H2]]]]. exists ul1, g, ul2. split; [exact H1|]. rewrite Hc. exact H2.
   Qed.
 
@@ -225,7 +228,7 @@ Section Prog.
   Proof.
     intros x Hx. destruct prog_shape as [defs [Hdefs Hc]].
     assert (Hx' : In x defs) by (rewrite Hc in Hx; exact Hx).
-    destruct (compile_defs_cover _ _ _ _ _ _ _ Hdefs x Hx') as [[]|[[]|[d [ul1 [g [ul2 [Hd [Hg [Hin Hinc]]]]]]]]].
+    destruct (compile_defs_cover_nc _ _ _ _ _ _ _ Hdefs x Hx') as [[]|[[]|[d [ul1 [g [ul2 [Hd [Hg [Hin Hinc]]]]]]]]].
     assert (Hincl : incl g (cpdefs c)) by (rewrite Hc; exact Hinc).
     destruct (String.eqb (fdname d) "main") eqn:Em.
     - eapply main_group_typed; eassumption.
